@@ -9,7 +9,7 @@ import sys
 sys.path.insert(0, os.path.join(os.path.dirname(os.path.abspath(__file__)), "..", "lib"))
 sys.path.insert(0, os.path.join(os.path.dirname(os.path.abspath(__file__)), ".."))
 
-LEAN_MODULES = ["KmipModel.Props.C20"]
+LEAN_MODULES = ["KmipModel.Props.C20", "KmipModel.Props.C20Engine"]
 RULE = ("canary runs: seeded engine histories (all operations, successes and every failure path the generator "
         "reaches incl. scripted backend failures and internal errors) and end-to-end client/server round trips in which "
         "every key value, secret, derived/wrapped token, plaintext and password is a high-entropy canary; every log "
